@@ -83,3 +83,28 @@ def run_stage(ctx, prefixes, plan, nontrivial_fn=None, procs=8):
     ctx.stage("cluster-real-runs", plan=plan, **stats)
     vlib.validate_traces(ctx, MODULE, trace, invariants(prefixes), tuple(prefixes), timeout=3000, heap="12g")
     return stats
+
+
+def replay_stage(ctx, obj, prefixes):
+    """`./verif replay <file>` for a violation reported by a ClusterTrace validation: the scenario of the
+    recorded trace is run again on the REAL scheduler built from the current tree and the new trace is
+    validated with the same predicates (exit 1 when a property predicate fails again). Rounds recorded
+    from the repository's fixtures cannot be re-run one by one: their recorded trace is re-validated."""
+    rep = obj["replay"]
+    tr = rep["trace"]
+    sc = dict(tr[0])
+    sc.pop("ev", None)
+    if str(sc.get("class", "")).startswith("fixture"):
+        trace = os.path.join(ctx.scratch, "replay-trace.ndjson")
+        with open(trace, "w") as f:
+            for e in tr:
+                f.write(json.dumps(e) + "\n")
+    else:
+        binary = vlib.go_build("cluster")
+        scen = os.path.join(ctx.scratch, "replay-scen.ndjson")
+        with open(scen, "w") as f:
+            f.write(json.dumps(sc) + "\n")
+        trace = os.path.join(ctx.scratch, "replay-trace.ndjson")
+        vlib.run_harness(binary, ["-in", scen, "-out", trace], timeout=600)
+    account(ctx, trace)
+    vlib.validate_traces(ctx, MODULE, trace, invariants(prefixes), tuple(prefixes), timeout=600, heap="4g")
